@@ -325,6 +325,33 @@ impl LogitsFilter for Sort {
     }
 }
 
+/// Verification hooks (only compiled with `--cfg rten_verif`).
+#[cfg(rten_verif)]
+#[doc(hidden)]
+pub mod verif_hooks {
+    use rten_simd::SimdOp;
+
+    /// Run the private vectorised top-K kernel with an explicitly chosen
+    /// instruction set instead of the dispatched one. Returns `None` if the
+    /// ISA is unknown or unavailable on this machine.
+    pub fn simd_topk_with_isa(
+        isa: &str,
+        k: usize,
+        logits: &[f32],
+        indices: &[u32],
+    ) -> Option<Vec<(u32, f32)>> {
+        let op = super::SimdTopK { k, logits, indices };
+        match isa {
+            "generic" => Some(op.eval(rten_simd::isa::GenericIsa::new())),
+            #[cfg(target_arch = "x86_64")]
+            "avx2" => rten_simd::isa::Avx2Isa::new().map(|isa| op.eval(isa)),
+            #[cfg(target_arch = "x86_64")]
+            "avx512" => rten_simd::isa::Avx512Isa::new().map(|isa| op.eval(isa)),
+            _ => None,
+        }
+    }
+}
+
 #[cfg(test)]
 mod tests {
     use super::{Chain, Logits, LogitsFilter, Sort, Temperature, TopK, TopP, token_id_filter};
